@@ -142,7 +142,7 @@ def do_send(S, who, k, kind, val, t0, log, obj=None):
 
 
 MULTI = ('bind', 'clump', 'sync')          # steps with several arguments
-RT_ONLY = ('clump', 'sync')                # not executed in the non-real-time run
+RT_ONLY = ('clump', 'sync', 'mb')                        # not executed in the non-real-time run
 
 
 def do_step(S, who, k, st, t0, log, obj=None):
